@@ -11,7 +11,10 @@
 (***************************************************************************)
 EXTENDS Naturals, FiniteSets, Sequences, TLC, Json
 
-Configs == {"default", "nightly", "nightly_simd"}
+Configs == {"default", "nightly", "nightly_simd", "nightly_release"}
+\* the build profile is part of the configuration: in the optimised profile debug assertions and arithmetic overflow checks are
+\* compiled out, so whatever the code does only inside a debug_assert!, or only by way of an overflow panic, it does not do there
+Profile(c) == IF c = "nightly_release" THEN "optimised (debug assertions and overflow checks off)" ELSE "debug"
 Containers(c) == IF c = "default" THEN {"stack", "vec", "array"} ELSE {"stack", "vec", "array", "heap", "locked"}
 
 \* operation family -> primitives it is built on
@@ -32,10 +35,10 @@ Observed(c, cont, op, input) == Value(op, input)
 Independence == \A c1, c2 \in Configs, op \in Ops : \A k1 \in Containers(c1), k2 \in Containers(c2) :
                    Observed(c1, k1, op, "x") = Observed(c2, k2, op, "x")
 \* cells whose computation actually differs between two configurations (what the transcripts must exercise)
-Differs(op) == \E c1, c2 \in Configs, p \in Uses[op] : Backend(c1, p) # Backend(c2, p)
+Differs(op) == \E c1, c2 \in Configs, p \in Uses[op] : Backend(c1, p) # Backend(c2, p) \/ Profile(c1) # Profile(c2)
 AllOpsDiffer == \A op \in Ops : Differs(op)
 ASSUME Independence /\ AllOpsDiffer
-ASSUME PrintT(ToJson([ops |-> {[op |-> op, prims |-> Uses[op]] : op \in Ops}, configs |-> {[config |-> c, containers |-> Containers(c)] : c \in Configs}]))
+ASSUME PrintT(ToJson([ops |-> {[op |-> op, prims |-> Uses[op]] : op \in Ops}, configs |-> {[config |-> c, containers |-> Containers(c), profile |-> Profile(c)] : c \in Configs}]))
 
 VARIABLE x
 Init == x = 0
